@@ -66,8 +66,7 @@ func (v *Vue) processComponentNode(node *html.Node) error {
 			if err := v.replaceWithInclude(node, filename); err != nil {
 				return err
 			}
-			// Don't process children since we've replaced the node
-			return nil
+			// The children are slot content: they may contain component tags as well
 		}
 	}
 
